@@ -1171,7 +1171,9 @@ def package_evaluator(an, module, V, max_iter=4096):
                  extra={"dis": dis_, "opcode": dis_, "EXTENDED_ARG": R["EXTENDED_ARG"], "HAVE_ARGUMENT": R["HAVE_ARGUMENT"], "opmap": om, "opname": opname,
                         "sys": {"version_info": tuple(V) + (0, "final", 0)}, "ctypes": {"sizeof": lambda x: {"c_int": 4}[x], "c_int": lambda *a: "c_int"},
                         "Counter": _c.Counter, "isnan": _m.isnan, "copysign": _m.copysign, "NotImplementedError": NotImplementedError, "ValueError": ValueError,
-                        "AssertionError": AssertionError, "OrderedDict": dict,
+                        "AssertionError": AssertionError, "OrderedDict": dict, "bisect_left": __import__("bisect").bisect_left, "bisect_right": __import__("bisect").bisect_right,
+                        "bisect": {"bisect_left": __import__("bisect").bisect_left, "bisect_right": __import__("bisect").bisect_right, "bisect": __import__("bisect").bisect},
+                        "id": id,
                         "_ParameterKind": {"POSITIONAL_ONLY": 0, "POSITIONAL_OR_KEYWORD": 1, "VAR_POSITIONAL": 2, "KEYWORD_ONLY": 3, "VAR_KEYWORD": 4}})
     ev.module_assigns = {}
     for mod in an.prog.modules.values():
